@@ -162,8 +162,9 @@ CHECKS = {
             "{directory +/- mmap, RAM} x {compound, loose files} x {SegmentWriter, MpWriter procs 1-4 / batch 1-5 / merged or multisegment, BufferedWriter limit 1-5, AsyncWriter with "
             "the lock free or held by another writer that then commits or cancels} x {merge=False, default, optimize} x {as is, copy_to_ram, reopened}; canonical logical dumps, probe "
             "results, statistics/scores (delete-free lists) and group adjacency must agree. buffered: generated add/update/delete/commit/search programs against one BufferedWriter; "
-            "after every step its searcher must show exactly the model's documents, and after close() the index must.",
-            "MpWriter runs real sub-processes: which sub-process takes which batch is decided by the OS, so the check samples those schedules rather than enumerating them (the oracle holds for every one of them). The BufferedWriter flush timer is modelled as commit() at generated program points; no timer thread is started. SerialMpWriter (a test helper) is not covered.",
+            "after every step its searcher must show exactly the model's documents (stored fields, term probes and generated queries of every type against the reference evaluator), "
+            "and after close() the index must. flushtimer: commit() in a second thread stopped at a generated storage operation while the owner adds / updates / deletes / closes.",
+            "MpWriter runs real sub-processes: which sub-process takes which batch is decided by the OS, so the check samples those schedules rather than enumerating them (the oracle holds for every one of them). The BufferedWriter flush timer is modelled as commit() at generated program points and as commit() in a harness-scheduled second thread; no wall-clock timer is started. SerialMpWriter (a test helper) is not covered.",
             "DESIGN.md section 2 C18"),
     "C19": ("exploration",
             "exhaustive enumeration over small alphabets (sharded) + property-based testing (Hypothesis) against textbook edit-distance references",
